@@ -118,6 +118,48 @@ func genStep(t *rapid.T, first bool) Step {
 	return s
 }
 
+var deriveOps = []string{"keys", "reverse", "keys", "map", "select", "concat", "keys", "zip", "append", "slice", "reject", "insert-index", "rest", "to-bytes", "append-bytes", "call"}
+
+// genDerive emits the scenario the discipline is most easily broken by:
+// DERIVE a value from a container with a non-mutating builtin, MUTATE the
+// derived value in place (an order-changing stable-sort, append!, or
+// append-bytes!), then DERIVE AGAIN from the same source -- the oracle compares
+// the source, both derived values and the map enumeration with the model after
+// each of the three steps.
+func genDerive(t *rapid.T) []Step {
+	d := genStep(t, false)
+	d.Op = rapid.SampledFrom(deriveOps).Draw(t, "derive")
+	d.Loose, d.Bad = false, 0
+	d.Dst = rapid.IntRange(0, 9).Draw(t, "ddst")
+	if d.Op == "append" || d.Op == "concat" {
+		d.Args = nil // zero values / a plain copy
+		d.J = 0
+	}
+	if d.Op == "slice" {
+		d.I, d.J = 0, 7
+	}
+	m := genStep(t, false)
+	m.Op = rapid.SampledFrom([]string{"stable-sort", "stable-sort", "append!", "stable-sort", "append-bytes!"}).Draw(t, "mut")
+	if d.Op == "to-bytes" || d.Op == "append-bytes" || (d.Op == "slice" && d.T == 2) || (d.Op == "append" && d.T == 2) || (d.Op == "concat" && d.T == 2) {
+		m.Op = rapid.SampledFrom([]string{"append-bytes!", "append!"}).Draw(t, "bmut")
+		m.T = 2
+	}
+	m.Direct, m.Loose, m.Bad, m.Pref = true, false, 0, 0
+	m.A = d.Dst
+	m.Dst = -1
+	m.KeyFn = rapid.IntRange(1, 2).Draw(t, "mkeyfn")
+	if len(m.Args) == 0 {
+		m.Args = []Arg{{K: 0, I: 7}}
+	}
+	r := d
+	r.Again = true
+	r.Dst = rapid.IntRange(0, 9).Draw(t, "rdst")
+	if r.Dst == d.Dst {
+		r.Dst = (r.Dst + 1) % NSlots
+	}
+	return []Step{d, m, r}
+}
+
 func genCase() *rapid.Generator[Case] {
 	maxSteps := 25
 	if os.Getenv("VERIF_TIER") == "thorough" {
@@ -126,7 +168,12 @@ func genCase() *rapid.Generator[Case] {
 	return rapid.Custom(func(t *rapid.T) Case {
 		n := rapid.IntRange(3, maxSteps).Draw(t, "nsteps")
 		c := Case{}
-		for i := 0; i < n; i++ {
+		for len(c.Steps) < n {
+			i := len(c.Steps)
+			if i >= 2 && rapid.IntRange(0, 5).Draw(t, "scenario") == 0 {
+				c.Steps = append(c.Steps, genDerive(t)...)
+				continue
+			}
 			c.Steps = append(c.Steps, genStep(t, i < 2))
 		}
 		return c
